@@ -6,5 +6,6 @@ CONSTANTS
   Wide = FALSE
 INVARIANT PropertyHolds
 INVARIANT DeviationsExplain
+INVARIANT DesignNames
 INVARIANT Emit
 CHECK_DEADLOCK FALSE
